@@ -5,8 +5,17 @@ import lib
 
 def std_build(res, release=False, need_harness=True):
     """translate -> model -> harness.  A failing translation or model build raises."""
-    note = lib.build_translate()
-    res.notes.append(note)
+    try:
+        note = lib.build_translate()
+        res.notes.append(note)
+    except lib.BuildBroken as e:
+        # the translator no longer recognises the source: a broken tie.  Keep the constants of
+        # the last successful translation so that the correspondence run can still search for a
+        # failing input; the obligation stays broken whatever the search finds.
+        import os
+        if not os.path.exists(os.path.join(lib.COQ, "Model", "Consts.v")):
+            raise
+        res.oblige("K:translate (tools/gen_consts.py patterns match the current source)", "K", False, e.detail[-400:])
     lib.build_model()
     if need_harness:
         lib.build_harness(False)
